@@ -1,6 +1,7 @@
 """C12 — field ranges (--nth, --with-nth, {N}) select exactly the designated fields."""
 ID = "C12"
-EXTRA_PROPS = ["FieldFnsTables", "ItemFnsTables"]   # translate_neg / to_index_pair as TRANSLATED from src/field.rs = the model's functions (Props/FieldFnsTables.lean)
+EXTRA_PROPS = ["FieldFnsTables", "ItemFnsTables"]
+SUBMODULES = ["c12cli"]   # the field cases of the pty stream: {N} placeholders under -d / --with-nth at the Model's call sites   # translate_neg / to_index_pair as TRANSLATED from src/field.rs = the model's functions (Props/FieldFnsTables.lean)
 N_QUICK, N_THOROUGH = 6000, 400000
 RULE = ("lines assembled from fields (empty, ASCII, 2/3/4-byte characters) and instances of the delimiter regex "
         "(13 regexes incl. ones that match empty: x*, \\b, ^, $), leading/trailing/adjacent delimiters; range "
